@@ -143,6 +143,58 @@ def interning_keys(rep: Report, prog: Program) -> None:
                   "in it is off by the ratio of the two references)", fi.where(lossy[0] if lossy else None))
 
 
+def log_sites(rep: Report, prog: Program, resolver: Resolver, rid: str) -> None:
+    """R18.1 decides `LogarithmicUnit.level` (and R18.10 the sums of levels).  That settles the property only if those are the places
+    where levels are computed: a second copy of the formula - a Decimal branch in `Quantity.level` that leaves the power ratio out -
+    is not looked at by them.  Who may compute a logarithm is therefore a closed list."""
+    allowed = {"LogarithmicUnit.level", "Level.__add__", "Level.__sub__", "Prefix.__mul__", "Prefix.__truediv__"}
+    callers: Dict[str, set] = {}
+    for q0 in prog.functions:
+        for cs in resolver.callsites(q0):
+            for t in cs.targets:
+                callers.setdefault(t, set()).add(q0)
+    grew = True
+    while grew:
+        grew = False
+        for t, cs_ in callers.items():
+            if t not in allowed and cs_ and cs_ <= allowed and prog.functions[t].module == "" and prog.functions[t].name.startswith("_") \
+                    and not prog.functions[t].name.startswith("__"):
+                allowed.add(t)
+                grew = True
+    def log_calls(fi_) -> List[ast.Call]:  # type: ignore[no-untyped-def]
+        out = []
+        for c in Resolver._own_nodes(fi_.node):
+            if not isinstance(c, ast.Call):
+                continue
+            ft = ast.unparse(c.func)
+            if ft in ("math.log", "math.log10", "math.log2", "math.log1p", "log", "log10", "log2", "log1p") or \
+                    (isinstance(c.func, ast.Attribute) and c.func.attr in ("ln", "log10", "logb") and not c.args):
+                out.append(c)
+        return out
+    n = 0
+    for q, fi in sorted(prog.functions.items()):
+        if fi.module in ("hypothesis", "pytest"):
+            continue
+        # only where a Level is made: a logarithm elsewhere (a display heuristic, a range check) is none of this property's business
+        makes_level = any(isinstance(c, ast.Call) and ast.unparse(c.func).split(".")[-1] == "Level" for c in Resolver._own_nodes(fi.node))
+        if not makes_level:
+            continue
+        sites = [(fi, c) for c in log_calls(fi)]
+        for cs in resolver.callsites(q):
+            for t in cs.targets:
+                tfi = prog.functions.get(t)
+                if tfi is not None and tfi.name.startswith("_") and not tfi.name.startswith("__"):
+                    sites += [(tfi, c) for c in log_calls(tfi)]
+        for hfi, c in sites:
+            n += 1
+            rep.check(rid, f"{q}:{ast.unparse(c)[:40]}", q in allowed,
+                      f"{q} makes a Level from a logarithm it computes itself (`{ast.unparse(c)[:50]}` in {hfi.qual}): levels are computed by LogarithmicUnit.level "
+                      "(decided by R18.1) and added by Level.__add__ / __sub__ (R18.10); a further formula here is decided by nobody - a Decimal branch that "
+                      "leaves out the power ratio gives 50 dBSPL for 2 Pa instead of 100", hfi.where(c))
+    if n < 1:
+        raise AnalysisError("no logarithm call site found where levels are made (LogarithmicUnit.level has one): R18.14 anchors moved")
+
+
 def run(rep: Report) -> None:
     prog = Program()
     resolver = Resolver(prog)
@@ -156,6 +208,9 @@ def run(rep: Report) -> None:
     rep.rule("R18.11", "Level.__init__ stores the magnitude and unit it is given (no snapping, no rounding: every computed level is built through it)", floor=2)
     rep.rule("R18.10", "a copy/pickle hook on Logarithm / LogarithmicUnit passes every argument its __new__ interns under (otherwise the copy lands on "
              "another interned object, e.g. Bel for a decibel, and overwrites it)", floor=2)
+    rep.rule("R18.14", "one formula: a function that makes a Level from a logarithm it computes is LogarithmicUnit.level, Level.__add__ / __sub__ or a helper "
+             "only they call (a second quantity -> level formula elsewhere is not decided by R18.1)", floor=1)
+    log_sites(rep, prog, resolver, "R18.14")
     rep.rule("R18.13", "ROOT_POWER_DIMENSIONS is written nowhere but in its literal (k must not depend on import history)", floor=1)
     rep.rule("R20.9", "lazy initialisation on a (shared, interned) logarithm or logarithmic unit publishes its guard attribute last - shared with C20", floor=1)
     from .c20 import lazy_publication
